@@ -27,6 +27,7 @@ def run(item):
         if b.returncode != 0:
             return dict(status="does not build: " + b.stderr[-300:], rules={})
         rules = {}
+        shutil.copy(os.path.join(VERIF, "KNOWN_FINDINGS.txt"), tmp)  # listed findings stay listed on the variants
         for p in PROPS:
             c = subprocess.run([os.path.join(VERIF, "bin", "wscheck"), "-repo", dst, "-verif", tmp, "-prop", p, "-evidence", os.path.join(tmp, p + ".json")],
                                env=ENV, capture_output=True, text=True)
